@@ -26,6 +26,8 @@ ASSUMPTIONS = [
     "fields are matched to dimensions by name (q: nq; u, u_dot: nu; la_g, P_g: nla_g; la_c: nla_c; la_N, P_N: nla_N; "
     "la_F, P_F: nla_F; la_gamma, P_gamma: nla_gamma); other array fields must have len(t) rows",
     "ScipyIVP / ScipyDAE are run with rtol=1e-6 on the smooth systems only",
+    "save/load: a one-row solution is saved to and loaded from the path first, then the real solution is saved to the same "
+    "path and loaded (a result file that is overwritten between loads)",
 ]
 CASES = {"quick": 140, "thorough": 5000}
 SHARDS = {"quick": 8, "thorough": 16}
@@ -206,8 +208,16 @@ def check(spec):
     try:
         fn = os.path.join(d, "sol.pkl")
         with quiet():
+            # history on one path: a shorter solution is saved and loaded first, then the real one overwrites it
+            from cardillo.solver import Solution
+            short = Solution(getattr(sol, "system", None), np.asarray(sol.t)[:1].copy(), np.asarray(sol.q)[:1].copy())
+            save_solution(short, fn)
+            short2 = load_solution(fn)
             save_solution(sol, fn)
             sol2 = load_solution(fn)
+        res.ok()
+        if not (np.array_equal(np.asarray(short2.t), np.asarray(short.t)) and np.array_equal(np.asarray(short2.q), np.asarray(short.q))):
+            res.fail("save_load_preserves_fields", site, None, feats, "one-row solution not preserved")
         res.ok()
         bad = [k for k in ["t"] + list(fields) if not np.array_equal(np.asarray(getattr(sol2, k, None)),
                                                                     np.asarray(getattr(sol, k)), equal_nan=True)]
